@@ -592,6 +592,11 @@ def _last_value(vals):
   return sorted(vals)[-1]
 
 
+def _decl(p):
+  """The declaration as it reaches the space (how the values were handed over is dropped)."""
+  return {k: v for k, v in p.items() if k != 'given_values'}
+
+
 def _multi_value_children(active, stored):
   """[(parent name, parent values)] for every active child of this trial whose
   declaration (whole subtree) is the same under several values of its parent -
@@ -607,7 +612,7 @@ def _multi_value_children(active, stored):
       for kid in kids:
         union = []
         for vals2, kids2 in groups:
-          if any(k2 == kid for k2 in kids2):
+          if any(_decl(k2) == _decl(kid) for k2 in kids2):
             union.extend(v for v in vals2 if v not in union)
         if len(union) > 1:
           out.append((n, union))
@@ -629,7 +634,7 @@ def run_case(ctx, i):
   if conditional:
     # the same space declared with several parent values per entry
     readers += ['cfg-compact', 'cfg-factory']
-    if i % 2 == 0:
+    if i % 3 == 0:
       readers.append(rng.choice(['client-ram@compact', 'client-sql@compact']))
     if i % 16 == 8:
       readers.append('client-grpc@compact')
